@@ -424,3 +424,16 @@ Example C14_related_inhabited :
   related_keys (Ex.cfg false false) ExR.cfg ExR.ans Ex.cache (EDelete (Ex.pod "ns1" "9" [("app", JStr "x")] []))
     = ["ns1/p1"; "ns1/p2"].
 Proof. vm_compute. repeat split; reflexivity. Qed.
+
+(* the wake-up for the OLD state is demanded: a pod relabelled out of p1's label rule
+   (p2 keeps selecting it by name) affects p1, and the check flags a queue without p1 *)
+Example C14_related_old_state_demanded :
+  let old := Ex.pod "ns1" "8" [("app", JStr "x")] [] in
+  let cur := Ex.pod "ns1" "9" [("app", JStr "y")] [] in
+  parent_selects_related ExR.cfg ExR.ans [cur] Ex.p1 = false /\
+  related_affects ExR.cfg ExR.ans (EUpdate old cur) Ex.p1 = true /\
+  C14r_check (mkC14r ExR.cfg ExR.ans Ex.cache (EUpdate old cur)
+                [d_key_of Ex.p1; d_key_of Ex.p2]) = OK /\
+  C14r_check (mkC14r ExR.cfg ExR.ans Ex.cache (EUpdate old cur) [d_key_of Ex.p2])
+    = PROPFAIL "affected-parent-not-enqueued".
+Proof. vm_compute. repeat split; reflexivity. Qed.
